@@ -123,7 +123,8 @@ theorem found_file_facts {s : Mgr} {gh : Ghost} (hI : VolInv s gh) {dir : DirInf
     o ∈ objects (dirIdOf dir.cluster) (dirSlots gh.vol s.dev.disk gh.G (dirIdOf dir.cluster)) ∧ isDirE o = false ∧
     e.entryBlock = o.1 ∧ e.entryOffset = o.2.1 ∧ e.cluster = sCluster gh.vol.fatType o ∧
     (regionOf gh.vol e.entryBlock = .root ∨ regionOf gh.vol e.entryBlock = .data) ∧
-    ((e.cluster < 2 ∧ chainOf gh.G e.cluster = []) ∨ Chain gh.vol s.dev.disk e.cluster (chainOf gh.G e.cluster)) := by
+    ((e.cluster < 2 ∧ chainOf gh.G e.cluster = []) ∨ Chain gh.vol s.dev.disk e.cluster (chainOf gh.G e.cluster)) ∧
+    pendOf s.files o = none := by
   have hM := medX_of_med hI.med
   obtain ⟨ho, hod, hfree⟩ := hF.object hI hvs hdv hraw hdir hopen
   obtain ⟨_, _, _, hb, hoo, hnd⟩ := hF.fields
@@ -131,7 +132,7 @@ theorem found_file_facts {s : Mgr} {gh : Ghost} (hI : VolInv s gh) {dir : DirInf
   obtain ⟨hid, _⟩ := validDir_id hM hdv
   obtain ⟨pre, post, hsp, _⟩ := object_split hM hid ho
   have hmem : o ∈ dirSlots gh.vol s.dev.disk gh.G (dirIdOf dir.cluster) := by rw [hsp]; simp
-  refine ⟨ho, hod, hb, hoo, hcl, ?_, ?_⟩
+  refine ⟨ho, hod, hb, hoo, hcl, ?_, ?_, hfree⟩
   · rw [hb]
     rcases dirSlot_not_fat hM hid hmem with h1 | h1
     · exact .inr h1
@@ -164,7 +165,7 @@ theorem delete_callOK {s : Mgr} {gh : Ghost} (hI : VolInv s gh) (hm : Mirror gh.
         rw [hL.res, hr]; unfold Modes.deleteRefusal; dsimp only; rw [if_neg hdir, if_pos hopen])
     have hdir' : Attr.isDirectory e.attributes = false := by simpa using hdir
     have hopen' : fileIsOpen s dir.rawVolume e = false := by simpa using hopen
-    obtain ⟨ho, hod, hb, hoo, hcl, hreg, hch⟩ := found_file_facts hI hL.vols hL.raw hL.valid hF hdir' hopen'
+    obtain ⟨ho, hod, hb, hoo, hcl, hreg, hch, hclosed⟩ := found_file_facts hI hL.vols hL.raw hL.valid hF hdir' hopen'
     obtain ⟨di, hd1, hd2⟩ := hc.1
     have hvi : s.vols[0]? = some vi := by rw [hL.vols]; rfl
     obtain ⟨s', v', hrun, _, _, hs', hsg, hl, _⟩ := WriteSet.deleteFile_lic s d di 0 name sfn dir vi e (chainOf gh.G e.cluster)
@@ -174,7 +175,7 @@ theorem delete_callOK {s : Mgr} {gh : Ghost} (hI : VolInv s gh) (hm : Mirror gh.
     rw [hrun]
     refine ⟨_, ?_, hl, (hsg.mirror _).1 hs'.mirror⟩
     have := LicenceFor.delete (gh := gh) (files := s.files) (dirs := s.dirs) (d := s.dev.disk) d name sfn dir o hdm hdh hc.2.2 ho
-      hF.name hod
+      hF.name hod hclosed
     unfold WriteSet.deleteLicence
     rw [hcl, hb, hoo]
     exact this
@@ -225,8 +226,8 @@ theorem openFile_callOK {s : Mgr} {gh : Ghost} (hI : VolInv s gh) (hm : Mirror g
       rw [hrun]
       have hmir : Mirror gh.vol s'.dev.disk := (hsg.mirror _).1 hs'.mirror
       cases hout with
-      | slot en hb ho hal lic =>
-        exact ⟨_, .createSlot d name mode dir hdm hdh en.entryBlock en.entryOffset hb ho hal, lic _ (List.mem_singleton.2 rfl), hmir⟩
+      | slot en hb ho hal hfs lic =>
+        exact ⟨_, .createSlot d name mode dir hdm hdh en.entryBlock en.entryOffset hb ho hal hfs, lic _ (List.mem_singleton.2 rfl), hmir⟩
       | grown en last c hk hl hrc hfree hb ho lic =>
         exact ⟨_, .createGrow d name mode dir hdm hdh last c hl hrc hfree,
           lic _ List.mem_cons_self (List.mem_cons_of_mem _ List.mem_cons_self) List.mem_cons_self, hmir⟩
@@ -256,7 +257,7 @@ theorem openFile_callOK {s : Mgr} {gh : Ghost} (hI : VolInv s gh) (hm : Mirror g
     have htrunc : ∀ (hmt : mode = .ReadWriteTruncate ∨ mode = .ReadWriteCreateOrTruncate)
         (hron : Attr.isReadOnly e.attributes = false), CallOK gh s (.openFile d name mode) (openFileInDir d name mode s).2 := by
       intro hmt hron
-      obtain ⟨ho, hod, hb, hoo, hcl, hreg, hch⟩ := found_file_facts hI hL.vols hL.raw hL.valid hF hdir' hopen'
+      obtain ⟨ho, hod, hb, hoo, hcl, hreg, hch, hclosed⟩ := found_file_facts hI hL.vols hL.raw hL.valid hF hdir' hopen'
       obtain ⟨s', v', hrun, _, _, _, hs', hsg, hl⟩ := WriteSet.truncateOpen_lic s d 0 name sfn dir mode vi e (chainOf gh.G e.cluster)
         hmt hc hroom hvi (msound_of_inv hI hm hL.vol) (by rw [hL.find, hr]) hopen' hron hdir'
         (by rw [hL.vol]; exact hreg) (by rw [hL.vol]; exact hch)
@@ -264,7 +265,7 @@ theorem openFile_callOK {s : Mgr} {gh : Ghost} (hI : VolInv s gh) (hm : Mirror g
       rw [hrun]
       refine ⟨_, ?_, hl, (hsg.mirror _).1 hs'.mirror⟩
       have := LicenceFor.truncate (gh := gh) (files := s.files) (dirs := s.dirs) (d := s.dev.disk) d name mode sfn dir o hdm hdh
-        hc.2.2 hmt ho hF.name hod
+        hc.2.2 hmt ho hF.name hod hclosed
       unfold WriteSet.truncateLicence
       rw [hcl, hb, hoo]
       exact this
@@ -310,11 +311,11 @@ theorem mkdir_callOK {s : Mgr} {gh : Ghost} (hI : VolInv s gh) (hm : Mirror gh.v
       rw [hrun]
       have hmir : Mirror gh.vol s'.dev.disk := (hsg.mirror _).1 hs'.mirror
       cases hout with
-      | slot b off hb ho hal lic =>
-        exact ⟨_, .mkdirSlot d name dir hdm hdh cn hrn hfn b off hb ho hal,
+      | slot b off hb ho hal hfs lic =>
+        exact ⟨_, .mkdirSlot d name dir hdm hdh cn hrn hfn b off hb ho hal hfs,
           lic _ List.mem_cons_self List.mem_cons_self List.mem_cons_self, hmir⟩
-      | grown last c hk hl hrc lic =>
-        exact ⟨_, .mkdirGrow d name dir hdm hdh cn hrn hfn last c hl hrc,
+      | grown last c hk hl hrc hfc lic =>
+        exact ⟨_, .mkdirGrow d name dir hdm hdh cn hrn hfn last c hl hrc hfc,
           lic _ List.mem_cons_self List.mem_cons_self (List.mem_cons_of_mem _ List.mem_cons_self)
             (List.mem_cons_of_mem _ (List.mem_cons_of_mem _ List.mem_cons_self)) (List.mem_cons_of_mem _ List.mem_cons_self), hmir⟩
       | full lic =>
